@@ -23,6 +23,7 @@ THEOREMS = [
     "PV.C19.text_b_accepted",
     "PV.C19.width_over_i32_rejected",
     "PV.C19.reject_same_index",
+    "PV.C19.parts_wf",
     "PV.C19.number_eq",
     "PV.C19.string_eq",
     "PV.C19.char_eq",
@@ -30,6 +31,7 @@ THEOREMS = [
     "PV.C19.format_bytes_underflow",
     "PV.C19.format_bytes_dot_ignored",
     "PV.C19.bytes_eq_fails",
+    "PV.C19.format_bytes_panics_iff",
     "PV.C19.float_layout_eq",
     "PV.C19.float_precision_panics",
     "PV.C19.no_panic_partial",
